@@ -168,6 +168,33 @@ def fanout_graph(windows=(4, 1), rates=(20, 10, 10), delays=(0.004, 0.004), thir
     return nodes, cg, g
 
 
+def random_graph(seed=0, n_nodes=3, ts_max=0.4, num_episodes=1, supergraph=None, node_cls=ProbeNode, **gkw):
+    """seeded random topology: node1 is the supervisor; every node k > 1 feeds at least one lower-numbered node (so everything is an ancestor
+    of the supervisor), extra forward links and one skipped feedback link are drawn at random; rates, windows and delays are drawn from small sets."""
+    import random as _r
+
+    from distrax import Deterministic as D
+    from rex.artificial import generate_graphs
+    from rex.constants import Supergraph
+    from rex.graph import Graph
+
+    rnd = _r.Random(seed)
+    rates = [rnd.choice([5, 10, 15, 20, 30]) for _ in range(n_nodes)]
+    nodes = {}
+    for k in range(n_nodes):
+        nodes[f"node{k + 1}"] = node_cls(name=f"node{k + 1}", rate=rates[k], delay_dist=D(rnd.choice([0.002, 0.005, 0.01, 0.02])))
+    names = list(nodes)
+    for k in range(1, n_nodes):
+        targets = {rnd.randrange(0, k)} | {t for t in range(0, k) if rnd.random() < 0.3}
+        for t in sorted(targets):
+            nodes[names[t]].connect(nodes[names[k]], window=rnd.choice([1, 1, 2, 3]), blocking=False, delay_dist=D(rnd.choice([0.001, 0.004, 0.03, 0.11])))
+    if n_nodes >= 2 and rnd.random() < 0.7:
+        nodes[names[n_nodes - 1]].connect(nodes[names[0]], window=rnd.choice([1, 2]), blocking=False, skip=True, delay_dist=D(0.003))
+    cg = generate_graphs(nodes, ts_max, rng=jax.random.PRNGKey(seed), num_episodes=num_episodes)
+    g = Graph(nodes=nodes, supervisor=nodes["node1"], graphs_raw=cg, supergraph=supergraph or Supergraph.MCS, progress_bar=False, **gkw)
+    return nodes, cg, g
+
+
 def hetero_graph(settings, supergraph=None, node_cls=ProbeNode, ts_max=0.6, **gkw):
     """p (20 Hz) -> x (10 Hz) -> s (10 Hz, supervisor) plus a direct link p -> s; one episode per (x_phase_delay, direct_delay)
     setting, concatenated into a multi-episode graph whose episodes have *different* schedules (as stacked recordings have)."""
